@@ -516,6 +516,29 @@ example :
       · simp only [List.mem_cons, List.not_mem_nil, or_false] at hb
         exact absurd hb hne
 
+/-- **`sort_variable_types` puts every strict sub-type before its super-types**: with the key "number of
+Variable classes anywhere in the MRO" (a proper base has strictly fewer), no class in the sorted list is
+preceded by one of its proper bases — whatever else (plain mixins, in any position of the bases) the MRO
+contains, since only the Variable classes are counted. -/
+theorem sort_types_subtype_first (h : Hier) (hh : HierOk h) (types : List VType) :
+    (sortVariableTypes h types).Pairwise fun a b => ¬ (h.isSub b a = true ∧ b ≠ a) := by
+  refine List.Pairwise.imp ?_ (sortVariableTypes_spec h types).1
+  intro a b hle ⟨hsub, hne⟩
+  simp only [Hier.isSub, decide_eq_true_eq] at hsub
+  have := hh.shorter b a hsub (fun e => hne e.symm)
+  omega
+
+/-- the key of a careless edit — count only the *leading run* of Variable classes in the MRO — is wrong
+for `class Calib(Tagged, nnx.Param)` (MRO: Calib, Tagged, Param, Variable): Calib counts 1, Param 2, Param
+sorts first and its filter takes the Calib Variables; with the real key Calib keeps its own bucket -/
+example :
+    let var := VType.user 40 "Variable"; let param := VType.user 0 "Param"; let calib := VType.user 41 "Calib"
+    let h : Hier := ⟨fun t => if t = calib then [calib, param, var] else if t = param then [param, var] else [t]⟩
+    let leadingRun : Hier := ⟨fun t => if t = calib then [calib] else if t = param then [param, var] else [t]⟩
+    bucketOf h (sortVariableTypes h [param, calib]) calib = some calib ∧
+    bucketOf h (sortVariableTypes leadingRun [param, calib]) calib = some param := by
+  decide
+
 /-- **state → Linen collections → state is the identity**: the state `ToLinen`'s apply path rebuilds from
 the collections `_update_variables` wrote (all collections mutable) has the Variables of the original
 state at the same paths; no type is named `nnx` (that collection holds the graph definition). -/
